@@ -92,7 +92,7 @@ class C07(Check):
     required_classes = ['notation/' + n for n in SINGLE_NOTATIONS + BATCH_NOTATIONS] + [
         'pair/sync-sync', 'pair/sync-async', 'pair/async-sync', 'pair/async-async', 'idgen/sequential', 'idgen/randint', 'idgen/random',
         'idgen/uuid', 'strict/on', 'strict/off', 'outcome/typed-error', 'outcome/unregistered-error', 'outcome/server-error',
-        'plan/all-notifications', 'plan/mixed', 'interchange/checked']
+        'plan/all-notifications', 'plan/mixed', 'interchange/checked', 'error_cls/PlainBase', 'error_cls/IndepBase', 'error_cls/MetaBase']
 
     def strategy(self, tier: str):
         s_val = jg.cheap_value()
@@ -117,6 +117,7 @@ class C07(Check):
         return st.builds(
             lambda c, d, s, g, n1, n2, plan, beh, seed, split: {'client': c, 'dispatcher': d, 'strict': s, 'id_gen': g, 'notation': n1, 'other': n2,
                                                                   'plan': plan, 'behaviours': beh, 'seed': seed, 'split': split, 'batch_strict': seed % 3 != 0,
+                                                                  'error_cls': ([None] * 4 + ['PlainBase', 'IndepBase', 'MetaBase'])[seed % 7],
                                                                   'max_batch_size': [None, None, None, 1, 2, 3][seed % 6]},
             st.sampled_from(['sync', 'async']), st.sampled_from(['sync', 'async']), st.sampled_from([True, True, False]), s_idgen,
             st.sampled_from(SINGLE_NOTATIONS + BATCH_NOTATIONS + BATCH_NOTATIONS), st.sampled_from(SINGLE_NOTATIONS + BATCH_NOTATIONS),
@@ -200,7 +201,8 @@ class C07(Check):
         mbs = self._mbs(spec, notation)
         disp = hm.build_dispatcher(dkind, registry, **({'max_batch_size': mbs} if mbs else {}))
         random.seed(spec['seed'])
-        client = ch.make_client(ckind, ch.loopback_transport(dkind, disp, sentinel), strict=spec['strict'], id_gen_impl=id_gen(spec['id_gen']))
+        client = ch.make_client(ckind, ch.loopback_transport(dkind, disp, sentinel), strict=spec['strict'], id_gen_impl=id_gen(spec['id_gen']),
+                                **({'error_cls': he.BY_NAME[spec['error_cls']]} if spec.get('error_cls') else {}))
         plan = spec['plan']
         outcomes: List[Tuple[str, Any]] = []    # ('value', v) | ('exc', e) per logical send (single notations) or one for the batch
 
@@ -322,7 +324,7 @@ class C07(Check):
         if kind != 'exc' or not isinstance(v, JsonRpcError):
             return [Disc(f"C07/{tag}/error-not-raised", f"got {v!r} expected error {el.payload} | {where}")]
         code = el.payload['code'] if el.outcome == 'app-error' else el.payload
-        want = he.expected_class(code)
+        want = he.expected_class(code, self._ecn)
         d = []
         if type(v) is not want:
             d.append(Disc(f"C07/{tag}/error-class", f"{type(v).__name__} expected {want.__name__} for code {code} | {where}"))
@@ -336,9 +338,14 @@ class C07(Check):
                 d.append(Disc(f"C07/{tag}/error-content", f"{v!r} expected {jg.short(w)} | {where}"))
         return d
 
+    _ecn = 'JsonRpcError'
+
     def _judge(self, spec: Any, notation: str, run: Dict[str, Any], expected: List[ref.Element]) -> List[Disc]:
         plan = spec['plan']
-        where = f"notation={notation} client={spec['client']} dispatcher={spec['dispatcher']} idgen={spec['id_gen']} strict={spec['strict']} plan={jg.short(plan, 400)}"
+        # the client's error base class decides which class a code is raised as (documented: get_error_cls override; a hierarchy with
+        # a registry of its own through a sub-metaclass)
+        self._ecn = spec.get('error_cls') or 'JsonRpcError'
+        where = f"notation={notation} client={spec['client']} error_cls={spec.get('error_cls')} dispatcher={spec['dispatcher']} idgen={spec['id_gen']} strict={spec['strict']} plan={jg.short(plan, 400)}"
         discs: List[Disc] = []
         single = notation in SINGLE_NOTATIONS
         groups = [[i] for i in range(len(plan))] if single else [list(range(len(plan)))]
@@ -395,7 +402,7 @@ class C07(Check):
         mbs = self._mbs(spec, notation)
         if not single and mbs and len(plan) > mbs:
             got = run['outcomes'][0] if run['outcomes'] else ('value', None)
-            want = he.expected_class(-32600)
+            want = he.expected_class(-32600, self._ecn)
             if got[0] != 'exc' or type(got[1]) is not want:
                 discs.append(Disc("C07/batch/refused-batch-not-raised", f"got {got[1]!r} expected {want.__name__} (batch of {len(plan)} > max_batch_size {mbs}) | {where}"))
             if run['log']:
@@ -455,7 +462,7 @@ class C07(Check):
         if not self._expressible(notation, plan):
             notation = 'batch-add'
         run, discs = self._run_and_judge(spec, notation, expected)
-        classes = [f"notation/{notation}", f"pair/{spec['client']}-{spec['dispatcher']}", f"idgen/{spec['id_gen']['kind']}",
+        classes = [f"notation/{notation}", f"pair/{spec['client']}-{spec['dispatcher']}", f"idgen/{spec['id_gen']['kind']}", f"error_cls/{spec.get('error_cls') or 'default'}",
                    'strict/on' if spec['strict'] else 'strict/off']
         evaluations = 1
         other = spec.get('other')
